@@ -8,5 +8,6 @@ import PyXABModel.Model.SequOOL
 import PyXABModel.Model.Meta
 import PyXABModel.Model.Zooming
 import PyXABModel.Model.VROOM
+import PyXABModel.Model.StroquOOL
 import PyXABModel.Generated.ObjectivesFloat
 import PyXABModel.Drv.Main
